@@ -121,7 +121,15 @@ pub fn inject_faults(r: &mut Rng, src: &str, n: usize) -> String {
             1 => chars.len() - 1,
             _ => r.below(chars.len()),
         };
-        match r.below(6) {
+        match r.below(8) {
+            6 | 7 => {
+                // delete a closing bracket or a colon (tends to produce MISSING nodes)
+                let idxs: Vec<usize> = chars.iter().enumerate().filter(|(_, c)| matches!(c, ')' | ']' | ':' | '}')).map(|(i, _)| i).collect();
+                if !idxs.is_empty() {
+                    let i = *r.pick(&idxs);
+                    chars.remove(i);
+                }
+            }
             0 => {
                 chars.remove(pos);
             }
